@@ -36,7 +36,10 @@ ENCODED = ["InnerHeap::grow (against std::alloc's failure contract)", "Heap::pus
            "Heap::copy_pstr_within", "sized_iter_to_heap_list", "Heap::allocate_cstr (reserve half)",
            "Heap::allocate_pstr (reserve half)", "Heap::compute_pstr_size",
            "copier::copy_term (MIR: every returning path, error returns included, restores the source "
-           "term's forwarding cells first - F11)"]
+           "term's forwarding cells first - F11)",
+           "every function of dispatch.rs that calls throw_resource_error (20: the get_*/unify_*/put_*/"
+           "set_* instruction helpers, copy_term, sort, keysort): on each path the raised error is followed "
+           "by backtrack(), or every call site in dispatch_loop tests `fail` before the next instruction"]
 ASSUME = ["S3: InnerHeap::grow is replaced by realloc's failure contract (returns false, heap "
           "untouched) - this *is* the injected fault",
           "unchanged = byte_len, byte_cap, ptr, resource_err_loc and one arbitrary byte of the "
